@@ -88,13 +88,13 @@ def streams(seed, tier):
     out.append(Stream("exhaustive2<=%d" % d2, "graph", "graph.check", exhaustive([], a2, d2, observe([0, 1, -1]), profs),
                       "all histories up to length %d over %d mutating operations (add/remove node, add/remove edge, set state/weight, clone) on node names {first, second created} from the empty graph, followed by a fixed read-out (sizes, filters, states, weights, predecessors, successors, neighbours, diffs against the clone)" % (d2, len(a2))))
     # (b) three ids: two live nodes + one never-issued id, NaN and -0.0 weights
-    d3 = {"quick": 2, "thorough": 3, "search": 3}[tier]
+    d3 = {"quick": 3, "thorough": 3, "search": 3}[tier]
     a3 = alphabet([0, 1, 2, -1], [F_NAN, F_NZERO])
     pre = [[2, 0, 1], [2, 0, 7], [2, 0, 7], [4, 0, 0, 1, F_ZERO], [4, 0, 2, 1, F_HALF], [1, 0, 1]]
     out.append(Stream("exhaustive3<=%d" % d3, "graph", "graph.check", exhaustive(pre, a3, d3, observe([0, 1, 2]), profs),
                       "all histories up to length %d over %d operations on three live nodes + a never-issued id, weights NaN / -0.0, starting from a 3-node 2-edge graph with a clone" % (d3, len(a3))))
     # (c) long random histories over three registers
-    n = {"quick": 400, "thorough": 4000, "search": 4000}[tier]
+    n = {"quick": 2000, "thorough": 20000, "search": 20000}[tier]
     cases = [sx_str([k % 2, 3, rand_history(rng, 100, 3) + observe([0, 1, 2])]) for k in range(n)]
     out.append(Stream("random100", "graph", "graph.check", cases,
                       "random histories of 100 operations over 3 graph registers (clone / diff between registers), up to 9 nodes, valid / stale / never-issued ids, weights from a pool incl. 0.0, -0.0, NaN, +-inf, subnormal"))
